@@ -75,6 +75,8 @@ type Exec struct {
 	gobReg       map[*Term]gobEntry
 	world        *World
 	symLoopBound int
+	unwindAssert bool    // cut symbolic loops with an unwinding assertion instead of an assumption
+	residuals    []*Term // path conditions of the cut iterations (must be unsatisfiable)
 	maxSymUnroll int
 	feasQueries  int
 	calls        []CallRec
@@ -762,6 +764,11 @@ func (ex *Exec) execLoop(fr *frame, lp *loop) {
 		if iter > ex.loopLimit {
 			ex.bounded = true
 			ex.note(fmt.Sprintf("loop %s cut after %d iterations (residual path assumed away: bounded)", key, ex.loopLimit))
+			break
+		}
+		if symIters > ex.symLoopBound && ex.unwindAssert {
+			// unwinding assertion: the caller proves that no execution needs another iteration
+			ex.residuals = append(ex.residuals, st.pc)
 			break
 		}
 		if symIters > ex.symLoopBound {
